@@ -30,7 +30,7 @@ CFG = {
                      "are modelled (floor seconds, offset-independent), exercised by the correspondence, not proved"],
     "assumptions": COMMON_ASSUME + [
         "an instant is identified with (floor seconds, nanoseconds < 10^9); chrono's leap-second readings (sub-second field >= 10^9) are modelled as "
-        "ChronoDT and judged: the second the reading hangs on or the next one, nothing else",
+        "ChronoDT and judged: the second the reading hangs on, or (only where both lie inside 0..2^32) the next one, nothing else",
         "time zones are exercised as chrono::FixedOffset, Utc and chrono::Local under POSIX TZ texts (the impl is generic in TZ but only calls with_timezone(&Utc))",
         "seconds of a calendar reading: proleptic Gregorian calendar, Model/Calendar.lean daysFromCivil (proved: day 0 = 1970-01-01, +1 per valid date); "
         "the harness derives the calendar fields of its instants with its own inverse (civil_from_days), chrono is the third party",
